@@ -493,6 +493,41 @@ def analyse(fn, roles, prog, lib_roles=None, want_kinds=("W", "R"), callsite_goa
     res = []
     counters = {}
 
+    # ---- ends of what the function writes into each root (for the 'no gap in front of the slack clearing' rule):
+    #      a store at off covers [off, off+size); a libc/library writer returning the count r of elements stored covers [off, off + r*unit)
+    written_ends = {}
+    if "S" in want_kinds:
+        for b in fn.j["blocks"]:
+            for i in b["insts"]:
+                if i["op"] == "store":
+                    root, off = A.ptr(i["ops"][1])
+                    if root is not None and off is not None:
+                        written_ends.setdefault(root, []).append(off + Lin.const(i["size"]))
+                elif i["op"] in ("call", "invoke") and "id" in i:
+                    cal = i.get("callee") or ""
+                    rc = COUNT_RESULT.get(cal)
+                    if rc is None and prog.resolve(fn, cal) is None:
+                        e_ = external_effect(cal) if cal else None
+                        rc = e_.get("ret_count") if e_ else None
+                    if rc is not None and rc[0] < len(i.get("args", ())):
+                        root, off = A.ptr(i["args"][rc[0]])
+                        if root is not None and off is not None:
+                            written_ends.setdefault(root, []).append(off + A.lin({"k": "v", "id": i["id"]}).scale(rc[1]))
+
+    def gap_verdict(blk, root, off, F, lf):
+        """True: the clearing starts at the buffer start or not behind the end of something this function wrote; False: it starts a constant
+        distance behind every related write (elements in between keep their old contents); None: not decidable here"""
+        if entails_split(fn, A, F, -off, hdr_atoms, blk, 0, lf):
+            return True
+        related = False
+        for we in written_ends.get(root, ()):
+            d = off - we
+            if entails_split(fn, A, F, -d, hdr_atoms, blk, 0, lf):
+                return True
+            if d.is_const():
+                related = True
+        return False if related else None
+
     def check(blk, what, line, root, off, size, kind, zero_fill=False):
         if kind not in want_kinds:
             return
@@ -514,6 +549,7 @@ def analyse(fn, roles, prog, lib_roles=None, want_kinds=("W", "R"), callsite_goa
             # slack clearing must end exactly at the end of the declared destination: off + size == cap
             rec["zero_fill"] = True
             rec["ends_at_cap"] = bool(entails_split(fn, A, F, off + size - cap, hdr_atoms, blk, 0, lf))
+            rec["starts_at_written_end"] = gap_verdict(blk, root, off, F, lf) if "S" in want_kinds else None
         res.append(rec)
 
     for b in fn.j["blocks"]:
@@ -546,7 +582,7 @@ def analyse(fn, roles, prog, lib_roles=None, want_kinds=("W", "R"), callsite_goa
                     for (bn, ln, unit) in rl:
                         if bn in cpn and ln in cpn:
                             u = unit or {"i8*": 1, "i16*": 2, "i32*": 4}.get(callee.j["params"][cpn.index(bn)]["ty"], 1)
-                            effs.append(("W" if bn == "dest" else "R", cpn.index(bn), ("arg", cpn.index(ln), u)))
+                            effs.append(("W" if bn == "dest" and callee.name not in READONLY_DEST else "R", cpn.index(bn), ("arg", cpn.index(ln), u)))
                 else:
                     eff = external_effect(cal) if cal else None
                     if eff:
@@ -706,7 +742,20 @@ def default_roles(fn):
 BYTE_DMAX = ("_memcpy16_s_chk", "_memcpy32_s_chk", "_memmove16_s_chk", "_memmove32_s_chk", "_memset16_s_chk", "_memset32_s_chk")
 
 
+# library-internal writers whose result is the number of elements stored: callee -> (buffer argument, element size)
+COUNT_RESULT = {"safec_vsnprintf_s": (2, 1)}
+
+READONLY_DEST = set()     # library functions that never write through their 'dest' parameter (search / compare / test functions): set by all_roles()
+
+
 def all_roles(prog):
+    from .derive import Summaries
+    summ = Summaries(prog)
+    READONLY_DEST.clear()
+    for fn in prog.allfuncs:
+        k = fn.param_index("dest")
+        if k is not None and k not in summ.w.get((fn.mod["tu"], fn.name), ()):
+            READONLY_DEST.add(fn.name)
     roles = {}
     for fn in prog.allfuncs:
         roles[fn.name] = default_roles(fn)
